@@ -294,7 +294,11 @@ func afRunOnce(c *afCase, data []byte) *afObs {
 	}()
 
 	hang := false
-	timer := time.NewTimer(afWatchdog)
+	wd := afWatchdog
+	if int(afHangs.Load()) >= afHangQuick {
+		wd = afWatchdog / 10 // the run is red already; only bounds its duration
+	}
+	timer := time.NewTimer(wd)
 	defer timer.Stop()
 loop:
 	for len(obs.Deliv) < c.Conf.Take {
@@ -304,7 +308,7 @@ loop:
 			default:
 			}
 		}
-		timer.Reset(afWatchdog)
+		timer.Reset(wd)
 		select {
 		case s := <-steps:
 			if !s.ok {
@@ -330,7 +334,7 @@ loop:
 			obs.Outcome = "error"
 			obs.Err = err.Error()
 		}
-	case <-time.After(afWatchdog):
+	case <-time.After(wd):
 		hang = true // Run does not come back after cancel
 	}
 	if hang {
